@@ -1,18 +1,21 @@
-(** C03: an actor terminates once (Layer R) -- PARTIAL (lifecycle conjunct proved for all programs).
-    The C03 monitor is the exact product of two monitors (R/LinC03Mon.v, [C03_decomposition]): L (lifecycle) and
-    K (cause).  Proved for every program, deferrer kind and fuel ([C03_lifecycle]): if the trace reports no leaked
-    closure / actor value / notifier (decidable on the trace; false only inside F5 / F7 and the two situations listed
-    with C05: self-reference cycle, inline-deferrer leftover) then L accepts it: every actor moves Prep -> Ready ->
-    Zombie or Prep -> Zombie and never leaves Zombie, is_zombie() is true from the notification on, the notifier is
-    invoked exactly once, the actor's own value is dropped exactly once, only after Ready and not after a notification
-    with a cause, and neither a notifier nor a value is owed at the end.
-    Also kept: the one-step facts [C03_once_partial].
-    Not yet proved: K (the cause notified is the first stop/fail of the body / a requested kill / Dropped; the value
-    is not dropped while a method of the actor runs): validated by ./check C03; known findings F5/F7. *)
+(** C03: an actor terminates once (Layer R) -- FULL under one trace-decidable hypothesis.
+    [C03_terminates_once]: for every program, deferrer kind and fuel, if the machine terminates with trace t and t
+    reports no leaked closure / actor value / notifier ([no_container_leak], decidable on the trace: [ncl_b]), then
+    C03_ok t = true: every actor moves Prep -> Ready -> Zombie or Prep -> Zombie and never leaves Zombie, is_zombie()
+    is true from the notification on, the notifier is invoked exactly once with the cause of a termination request
+    actually issued - the first to take effect (first stop/fail of the body, a requested kill, or Dropped), the
+    actor's own value is dropped exactly once, no later than that notification and never while one of its methods runs.
+    The hypothesis cannot be dropped: it is false exactly in the known-finding classes F5 / F7 and for an actor storing
+    a reference to itself ([C03_F5_refuted], [C03_F7_refuted], [C03_selfcycle_refuted] of R/C03Proofs.v, where the
+    notifier / value is never released and C03_ok is false).
+    Architecture (layerRproofs2): the monitor is the exact product of L (lifecycle) and K (cause) ([C03_decomposition]);
+    L from the Lin census ([C03_lifecycle]); K for every run without hypothesis ([C03_cause]) using the reference census
+    of R/LinRef*.v (a cell is never freed while one of its own methods runs).
+    Also kept: the one-step facts [C03_once_partial]. *)
 From Coq Require Import ZArith NArith List Bool.
 Import ListNotations.
 From Stk Require Import Lib.U R.Syntax R.Rt R.Mon R.Eff R.Count R.OneStep.
-From Stk Require Import R.LinC05Core R.C05Proofs R.LinC03Mon R.C03Proofs.
+From Stk Require Import R.LinC05Core R.C05Proofs R.LinC03Mon R.LinC03K R.C03Proofs R.C03Full.
 
 Theorem C03_once_partial :
   (forall a c s pre s' x,
@@ -32,24 +35,35 @@ Proof.
 Qed.
 Print Assumptions C03_once_partial.
 
+(* the property: for every program, deferrer kind and fuel *)
+Theorem C03_terminates_once : forall (d : dkind) (p : list top) (fuel : nat) (t : list ev),
+  exec d fuel p = Done t -> no_container_leak t -> C03_ok t = true.
+Proof. exact C03_full. Qed.
+Check C03_terminates_once.
+Print Assumptions C03_terminates_once.
+
+(* boolean form of the hypothesis, as evaluated by the check on the real traces *)
+Theorem C03_terminates_once_checked : forall (d : dkind) (p : list top) (fuel : nat) (t : list ev),
+  exec d fuel p = Done t -> ncl_b t = true -> C03_ok t = true.
+Proof. exact C03_full_checked. Qed.
+Print Assumptions C03_terminates_once_checked.
+
 (* C03_ok is implied by the lifecycle monitor and the cause monitor together *)
 Theorem C03_decomposition : forall t : list ev, okL t = true -> okK t = true -> C03_ok t = true.
 Proof. exact C03_split. Qed.
-Check C03_decomposition.
 Print Assumptions C03_decomposition.
 
-(* the lifecycle conjunct, for every program, deferrer kind and fuel *)
+(* the lifecycle conjunct *)
 Theorem C03_lifecycle : forall (d : dkind) (p : list top) (fuel : nat) (t : list ev),
   exec d fuel p = Done t -> no_container_leak t -> okL t = true.
 Proof. exact C03_lifecycle_proved. Qed.
-Check C03_lifecycle.
 Print Assumptions C03_lifecycle.
 
-(* boolean form of the hypothesis, as evaluated by the check on the real traces *)
-Theorem C03_lifecycle_checked : forall (d : dkind) (p : list top) (fuel : nat) (t : list ev),
-  exec d fuel p = Done t -> ncl_b t = true -> okL t = true.
-Proof. intros d p fuel t H B. exact (C03_lifecycle_proved d p fuel t H (ncl_of_b t B)). Qed.
-Print Assumptions C03_lifecycle_checked.
+(* the cause conjunct: no hypothesis *)
+Theorem C03_cause : forall (d : dkind) (p : list top) (fuel : nat) (t : list ev),
+  exec d fuel p = Done t -> okK t = true.
+Proof. exact C03_cause_full. Qed.
+Print Assumptions C03_cause.
 
 (* satisfiable, non-trivially: stop + fail in one body, kill of a Prep actor holding a call, owner drop, is_zombie *)
 Example C03_example :
